@@ -114,6 +114,7 @@ def _run_summary(c, col):
         for s in ploidy:
             data.sampledata[FORMAT.GT][s] = gts[s]
             data.sampledata[FORMAT.ACP][s] = acp[s]
+            data.sampledata[FORMAT.AFP][s] = acp[s] / ploidy[s]
             data.sampledata[FORMAT.AOP][s] = aop[s]
             data.sampledata[FORMAT.DP][s] = dp[s]
             data.sampledata[FORMAT.RCOUNT][s] = rc[s]
@@ -158,7 +159,7 @@ def _run_summary(c, col):
             for s in aop:
                 pn = pn * (1 - E.real_term(aop[s][a]))
             rcl.append(E.real_term(info[INFO.AOP][a]) == 1 - pn)
-        col.check(ctx, z3.And(rcl), site, "posterior-summaries", witness=dict(n_alt=n_alt), desc="INFO ACP/AFP/AOPSUM/AOP == sum / ploidy-weighted mean / sum / 1-prod(1-p) of the sample values, R entries each")
+        col.check(ctx, z3.And(rcl), site, "posterior-summaries", witness=dict(n_alt=n_alt, first=c.get("first")), desc="INFO ACP/AFP/AOPSUM/AOP == sum / ploidy-weighted mean / sum / 1-prod(1-p) of the sample values, R entries each")
 
 
 def _iz(x):
@@ -455,7 +456,7 @@ def replay(v):
     m = w.get("model") or v.get("model") or {}
     warnings.simplefilter("ignore")
     if c["group"] == "summary":
-        return False, "summary identities are symbolic; a failing instance is reported with its model: %s" % (m,)
+        return _replay_summary(c, m)
     real = {"mchap.application.assemble": None, "mchap.application.call": None, "mchap.application.baseclass": None, "mchap.io.vcf.formatfields": None,
             "mchap.io.vcf.infofields": None, "mchap.io.vcf.columns": None, "mchap.assemble.classes": None, "mchap.calling.classes": None,
             "mchap.application.arguments": None, "mchap.io.loci": None}
@@ -490,6 +491,66 @@ def replay(v):
         k, desc, wit = res.fails[0]
         return True, "real modules: %s :: %s" % (desc, (wit or {}).get("line", (wit or {}).get("exc", ""))[:300])
     return False, "real modules produce a well-formed line for this record"
+
+
+def _replay_summary(c, m):
+    """the real sumarise_vcf_record on the model's numbers"""
+    import warnings
+    from mchap.application import baseclass as rbc
+    import mchap.io.vcf.formatfields as FORMAT
+    import mchap.io.vcf.infofields as INFO
+    import mchap.io.vcf.columns as COLUMN
+
+    n_alt = c["n_alt"]
+    nA = n_alt + 1
+    ploidy = {"s0": 2, "s1": 3, "s2": 4}
+    gts = {}
+    for s, P in ploidy.items():
+        if s == "s2":
+            gts[s] = rnp.array([0, 0, min(1, n_alt), -1])
+        else:
+            g = [int(m.get("%s_%d" % (s, i), -1)) for i in range(P)]
+            if s == "s0" and c.get("first") is not None:
+                g[0], g[1] = c["first"]
+            gts[s] = rnp.array(g)
+    acp = {s: rnp.array([float(m.get("acp_%s_%d" % (s, a), 0.25 * (a + 1))) for a in range(nA)]) for s in ploidy}
+    aop = {s: rnp.array([float(m.get("aop_%s_%d" % (s, a), 0.5)) for a in range(nA)]) for s in ploidy}
+    prog = rbc.program.__new__(rbc.program)
+    infof = list(INFO.DEFAULT_FIELDS) + [INFO.ACP, INFO.AFP, INFO.AOP, INFO.AOPSUM]
+    data = rbc.LocusAssemblyData(locus=_Locus0(), samples=list(ploidy), sample_bams={}, sample_ploidy=dict(ploidy), sample_inbreeding={}, read_calls={}, read_dists={}, read_counts={},
+                                 infofields=infof, formatfields=list(FORMAT.DEFAULT_FIELDS), columndata={COLUMN.FILTER: [], COLUMN.ALT: ["C"] * n_alt, COLUMN.REF: "A"},
+                                 infodata={}, sampledata={f: {} for f in FORMAT.ALL_FIELDS})
+    for s in ploidy:
+        data.sampledata[FORMAT.GT][s] = gts[s]
+        data.sampledata[FORMAT.ACP][s] = acp[s]
+        data.sampledata[FORMAT.AFP][s] = acp[s] / ploidy[s]
+        data.sampledata[FORMAT.AOP][s] = aop[s]
+        data.sampledata[FORMAT.DP][s] = int(m.get("dp_%s" % s, 3))
+        data.sampledata[FORMAT.RCOUNT][s] = int(m.get("rc_%s" % s, 4))
+        data.sampledata[FORMAT.MCI][s] = 0
+    try:
+        with warnings.catch_warnings():
+            warnings.simplefilter("ignore")
+            prog.sumarise_vcf_record(data)
+    except Exception as e:
+        return True, "real sumarise_vcf_record raised %r" % (e,)
+    info = data.infodata
+    allv = [int(x) for s in gts for x in gts[s]]
+    cnt = [sum(1 for x in allv if x == a) for a in range(nA)]
+    bad = []
+    if [int(x) for x in info[INFO.AC]] != cnt[1:] or int(info[INFO.AN]) != sum(cnt) or int(info[INFO.UAN]) != sum(1 for x in cnt if x) or int(info[INFO.NS]) != sum(1 for s in gts if (gts[s] >= 0).any()):
+        bad.append("AC/AN/UAN/NS %s/%s/%s/%s vs recount %s" % (list(info[INFO.AC]), info[INFO.AN], info[INFO.UAN], info[INFO.NS], cnt))
+    sacp = sum(acp.values())
+    if rnp.abs(rnp.asarray(info[INFO.ACP]) - sacp).max() > 1e-9:
+        bad.append("INFO ACP %s vs sum of sample ACP %s" % (list(info[INFO.ACP]), sacp.tolist()))
+    if rnp.abs(rnp.asarray(info[INFO.AFP]) - sacp / 9.0).max() > 1e-9:
+        bad.append("INFO AFP %s vs sum(ACP)/sum(ploidy) %s (ploidies 2,3,4)" % (rnp.round(info[INFO.AFP], 5).tolist(), rnp.round(sacp / 9.0, 5).tolist()))
+    pn = rnp.ones(nA)
+    for s in aop:
+        pn = pn * (1 - aop[s])
+    if rnp.abs(rnp.asarray(info[INFO.AOP]) - (1 - pn)).max() > 1e-9:
+        bad.append("INFO AOP %s vs 1-prod(1-p) %s" % (list(info[INFO.AOP]), (1 - pn).tolist()))
+    return bool(bad), "; ".join(bad) if bad else "summary fields agree with the recount on the real code"
 
 
 class _OneShot:
